@@ -23,8 +23,20 @@ def jmem (cass : List Cas) (H : Heap) (isAnn : Bool) (o : Obj) (n : String) (v :
     | none => []
   | _ => []
 
+/-- the members written for the feature `f`: under the name the writer uses (`xmlName`: a reserved feature `self_` /
+    `type_` is written as `self` / `type`) -/
 def jmemF (cass : List Cas) (H : Heap) (isAnn : Bool) (o : Obj) (f : Feature) : List (String × JV) :=
+  jmem cass H isAnn o (xmlName f) ((alistGet? o.slots f.name).getD .none)
+
+/-- the same members under the stored name: what the reader makes of them (`RoundTripJsonRen.lean`) -/
+def jmemFS (cass : List Cas) (H : Heap) (isAnn : Bool) (o : Obj) (f : Feature) : List (String × JV) :=
   jmem cass H isAnn o f.name ((alistGet? o.slots f.name).getD .none)
+
+/-- whether an offset is mapped does not depend on which of the two names is asked -/
+theorem extInt_xmlName (cass : List Cas) (isAnn : Bool) (o : Obj) (f : Feature) (h : ResOk f) (i : Int) :
+    extInt cass isAnn o (xmlName f) i = extInt cass isAnn o f.name i := by
+  unfold extInt
+  rw [xmlName_begin f h, xmlName_end f h]
 
 /-- the range of a `sofa` feature that holds a sofa is a structure type (follows from a successful save) -/
 def SofaRangeOk (K : Consts) (ts : TypeSystem) (o : Obj) (f : Feature) : Prop :=
@@ -118,13 +130,13 @@ theorem renderFeature_flatJ (K : Consts) (ts : TypeSystem) (cass : List Cas) (c 
   rw [hv, Option.getD_some]
   rw [renderFeature_eq]
   have hx : (f.name == "xmiID" || f.name == "type") = false := by simp [hn1, hn2]
-  rw [hx, hres]
-  simp only [Bool.false_eq_true, if_false, hs, hv, Option.getD_some]
+  rw [hx]
+  simp only [Bool.false_eq_true, if_false, hs, hv, Option.getD_some, xmlName_def]
   -- first stage
-  have hst1 : ∀ (w : Val), (∀ i, w ≠ .int i) → stage1 cass H a f f.name w = .ok w := by
+  have hst1 : ∀ (w : Val), (∀ i, w ≠ .int i) → stage1 cass H a f (xmlName f) w = .ok w := by
     intro w hw
     unfold stage1
-    rw [hcond]
+    rw [xmlName_begin f hres, xmlName_end f hres, hcond]
     by_cases hA : (isAnn && (f.name == "begin" || f.name == "end")) = true
     · have hia : isAnn = true := by
         rw [Bool.and_eq_true] at hA; exact hA.1
@@ -137,10 +149,10 @@ theorem renderFeature_flatJ (K : Consts) (ts : TypeSystem) (cass : List Cas) (c 
       dsimp only
       cases w <;> first | rfl | exact absurd rfl (hw _)
     · rw [if_neg hA]; rfl
-  have hst1i : ∀ (i : Int), stage1 cass H a f f.name (.int i) = .ok (.int (extInt cass isAnn o f.name i)) := by
+  have hst1i : ∀ (i : Int), stage1 cass H a f (xmlName f) (.int i) = .ok (.int (extInt cass isAnn o (xmlName f) i)) := by
     intro i
     unfold stage1 extInt
-    rw [hcond]
+    rw [xmlName_begin f hres, xmlName_end f hres, hcond]
     by_cases hA : (isAnn && (f.name == "begin" || f.name == "end")) = true
     · have hia : isAnn = true := by
         rw [Bool.and_eq_true] at hA; exact hA.1
@@ -157,7 +169,7 @@ theorem renderFeature_flatJ (K : Consts) (ts : TypeSystem) (cass : List Cas) (c 
     · obtain ⟨r1, r2, r3⟩ := hsr hn (by rw [hv]; simp)
       have hne : ¬ ((Val.sofa ci vn == Val.none) = true) := by simp
       rw [if_neg hne, hst1 _ (by intro i h; cases h)]
-      show stage2 K ts cass H f f.name (Val.sofa ci vn) = _
+      show stage2 K ts cass H f (xmlName f) (Val.sofa ci vn) = _
       unfold stage2 jmem
       have e1 : (f.range == "uima.cas.Double" || f.range == "uima.cas.Float") = false := by simp [r1, r2]
       rw [e1, r3]
@@ -176,28 +188,28 @@ theorem renderFeature_flatJ (K : Consts) (ts : TypeSystem) (cass : List Cas) (c 
         rcases hr with ((h | h) | h) | h <;> rw [h] <;> decide
       have hne : ¬ ((Val.int i == Val.none) = true) := by simp
       rw [if_neg hne, hst1i]
-      show stage2 K ts cass H f f.name (Val.int _) = _
+      show stage2 K ts cass H f (xmlName f) (Val.int _) = _
       unfold stage2 jmem
       have e1 : (f.range == "uima.cas.Double" || f.range == "uima.cas.Float") = false := by simp [hb.1, hb.2]
       rw [e1, hprim]
       rfl
     · have hne : ¬ ((Val.str x == Val.none) = true) := by simp
       rw [if_neg hne, hst1 _ (by intro i h; cases h)]
-      show stage2 K ts cass H f f.name (Val.str x) = _
+      show stage2 K ts cass H f (xmlName f) (Val.str x) = _
       unfold stage2 jmem
       have e1 : (f.range == "uima.cas.Double" || f.range == "uima.cas.Float") = false := by rw [hr]; decide
       rw [e1, hprim]
       rfl
     · have hne : ¬ ((Val.bool x == Val.none) = true) := by simp
       rw [if_neg hne, hst1 _ (by intro i h; cases h)]
-      show stage2 K ts cass H f f.name (Val.bool x) = _
+      show stage2 K ts cass H f (xmlName f) (Val.bool x) = _
       unfold stage2 jmem
       have e1 : (f.range == "uima.cas.Double" || f.range == "uima.cas.Float") = false := by rw [hr]; decide
       rw [e1, hprim]
       rfl
     · have hne : ¬ ((Val.float t == Val.none) = true) := by simp
       rw [if_neg hne, hst1 _ (by intro i h; cases h)]
-      show stage2 K ts cass H f f.name (Val.float t) = _
+      show stage2 K ts cass H f (xmlName f) (Val.float t) = _
       unfold stage2 jmem
       have e1 : (f.range == "uima.cas.Double" || f.range == "uima.cas.Float") = true := by
         rcases hr with h | h <;> rw [h] <;> decide
@@ -208,7 +220,7 @@ theorem renderFeature_flatJ (K : Consts) (ts : TypeSystem) (cass : List Cas) (c 
     · rfl
     · have hne : ¬ ((Val.ref b == Val.none) = true) := by simp
       rw [if_neg hne, hst1 _ (by intro i h; cases h)]
-      show stage2 K ts cass H f f.name (Val.ref b) = _
+      show stage2 K ts cass H f (xmlName f) (Val.ref b) = _
       unfold stage2 jmem
       have e1 : (f.range == "uima.cas.Double" || f.range == "uima.cas.Float") = false := by simp [hnd, hnf]
       rw [e1, hprim]
@@ -247,7 +259,7 @@ theorem renderFeatures_ok_each (K : Consts) (ts : TypeSystem) (cass : List Cas) 
 
 /-- a `sofa` feature that holds a sofa and was written has a structure range -/
 theorem sofaRange_of_ok (K : Consts) (ts : TypeSystem) (cass : List Cas) (H : Heap) (a : Nat) (o : Obj) (f : Feature)
-    (ho : H[a]? = some o) (hres : f.reserved = false) (ci : Nat) (vn : String)
+    (ho : H[a]? = some o) (hres : ResOk f) (ci : Nat) (vn : String)
     (hv : alistGet? o.slots f.name = some (.sofa ci vn)) (hn : f.name = "sofa")
     (r : List (String × JV)) (h : renderFeature K ts cass H a f = .ok r) :
     f.range ≠ "uima.cas.Double" ∧ f.range ≠ "uima.cas.Float" ∧ isPrimitive K ts f.range = false := by
@@ -255,19 +267,20 @@ theorem sofaRange_of_ok (K : Consts) (ts : TypeSystem) (cass : List Cas) (H : He
     intro n; unfold Xmi.slot Traverse.slot; rw [ho]; rfl
   rw [renderFeature_eq] at h
   have hx : (f.name == "xmiID" || f.name == "type") = false := by rw [hn]; decide
-  rw [hx, hres] at h
-  simp only [Bool.false_eq_true, if_false, hs, hv, Option.getD_some] at h
+  rw [hx] at h
+  simp only [Bool.false_eq_true, if_false, hs, hv, Option.getD_some, xmlName_def] at h
   have hne : ¬ ((Val.sofa ci vn == Val.none) = true) := by simp
   rw [if_neg hne] at h
-  have hst : stage1 cass H a f f.name (.sofa ci vn) = .ok (.sofa ci vn) := by
+  have hst : stage1 cass H a f (xmlName f) (.sofa ci vn) = .ok (.sofa ci vn) := by
     unfold stage1
+    rw [xmlName_begin f hres, xmlName_end f hres]
     have : (f.domain == ANNOTATION && (f.name == "begin" || f.name == "end")) = false := by
       rw [hn]
       have : (("sofa" : String) == "begin" || ("sofa" : String) == "end") = false := by decide
       rw [this]; simp
     rw [this]; rfl
   rw [hst] at h
-  change stage2 K ts cass H f f.name (Val.sofa ci vn) = _ at h
+  change stage2 K ts cass H f (xmlName f) (Val.sofa ci vn) = _ at h
   unfold stage2 at h
   by_cases e1 : (f.range == "uima.cas.Double" || f.range == "uima.cas.Float") = true
   · rw [if_pos e1] at h; cases h
@@ -281,6 +294,11 @@ theorem sofaRange_of_ok (K : Consts) (ts : TypeSystem) (cass : List Cas) (H : He
 def flatJFs (ts : TypeSystem) (cass : List Cas) (H : Heap) (x : Int) (o : Obj) (t : TypeRec) : JFs :=
   { id := some x, ty := o.ty, elements := none,
     feats := (allFeatures t).flatMap (jmemF cass H (isInstanceOf ts o.ty ANNOTATION) o) }
+
+/-- the same element with the members under the stored names -/
+def flatJFsS (ts : TypeSystem) (cass : List Cas) (H : Heap) (x : Int) (o : Obj) (t : TypeRec) : JFs :=
+  { id := some x, ty := o.ty, elements := none,
+    feats := (allFeatures t).flatMap (jmemFS cass H (isInstanceOf ts o.ty ANNOTATION) o) }
 
 /-- the annotation clause of `FlatFs`, as the writer needs it -/
 theorem flat_ann_sofa {K : Consts} {ts : TypeSystem} {c : Cas} {ci : Nat} {H : Heap} {a : Nat} {o : Obj}
